@@ -181,6 +181,8 @@ func (o op) String() string {
 		return fmt.Sprintf("attach(p%d -> r%d)", o.Policy, o.Role)
 	case "assign", "unassign":
 		return fmt.Sprintf("%s(r%d, s%d)", o.K, o.Role, o.Subject)
+	case "groupfile":
+		return fmt.Sprintf("groupfile(s%d + p%d under a new group)", o.Subject, o.Policy)
 	}
 	return o.K
 }
@@ -307,6 +309,7 @@ type finding struct {
 
 type stats struct {
 	Ops, Decisions, Allowed, Denied, InTx, Commits, Aborts, PolicySets, MixedRequests int
+	GroupFilings                                                                      int
 }
 
 type world struct {
@@ -533,6 +536,26 @@ func (w *world) apply(o op) {
 			return
 		}
 		m.assign[[2]int{o.Role, o.Subject}] = true
+	case "groupfile":
+		if _, ok := m.policies[o.Policy]; !ok || o.Subject >= w.nReg {
+			return
+		}
+		g, err := w.s.group.NewWriter(w.tx).Create(ctx, fmt.Sprintf("g%d", w.at), ontology.RootID)
+		if err != nil {
+			fail(err)
+			return
+		}
+		ow := w.s.otg.NewWriter(w.tx)
+		gid := group.OntologyID(g.Key)
+		if err := ow.DefineRelationship(ctx, gid, ontology.RelationshipTypeParentOf, w.subjects[o.Subject]); err != nil {
+			fail(err)
+			return
+		}
+		if err := ow.DefineRelationship(ctx, gid, ontology.RelationshipTypeParentOf, policy.OntologyID(w.polKeys[o.Policy])); err != nil {
+			fail(err)
+			return
+		}
+		w.st.GroupFilings++
 	case "unassign":
 		if !m.everRole[o.Role] || o.Subject >= w.nReg {
 			return
@@ -837,6 +860,10 @@ func genScript(r *prng.R) script {
 			add(op{K: "rmpolicy", Policy: r.Intn(nextPol)})
 		case x < 83 && nextRole > 0:
 			add(op{K: "rmrole", Role: r.Intn(nextRole)})
+		case x < 88 && nextPol > 0:
+			// a group (a non-role parent) that holds a subject and a policy: filing things
+			// under a group grants nothing
+			add(op{K: "groupfile", Subject: r.Intn(sc.NSubjects), Policy: r.Intn(nextPol)})
 		case x < 100:
 			if x < 92 {
 				continue
@@ -980,6 +1007,7 @@ func layerSeq(h *harness.H) {
 				h.Count("policy_sets_compared", st.PolicySets)
 				h.Count("tx_commits", st.Commits)
 				h.Count("tx_aborts", st.Aborts)
+				h.Count("group_filings_of_subject_and_policy", st.GroupFilings)
 				if st.Allowed > 0 && st.Denied > 0 {
 					var sb strings.Builder
 					for _, o := range sc.Ops {
